@@ -23,7 +23,7 @@ static struct { void* inst; int mod; } known[600]; static int nknown;
 static void know(void* i, int mod) { known[nknown].inst = i; known[nknown].mod = mod; nknown++; }
 wasmMemory* wasiMemory(void* i) { return ta_memory(&A); (void)i; }
 static struct { U32 tid, arg; int mod, shared, parent; } starts[512]; static int nstarts;
-static struct { U32 arg, ret; int mod; } spawns[512]; static int nspawns;
+static struct { U32 arg, ret; int mod, fail; } spawns[512]; static int nspawns;
 static void report(int mod, void* inst, U32 tid, U32 arg, wasmMemory* m, wasmMemory* rootm, void* root) {
     pthread_mutex_lock(&lg);
     starts[nstarts].tid = tid; starts[nstarts].arg = arg; starts[nstarts].mod = mod;
@@ -37,18 +37,29 @@ void tn_env__report(void* i, U32 tid, U32 arg) { report(3, i, tid, arg, tn_memor
 U32 ta_wasi__threadX2Dspawn(void* i, U32 a) { return wasi__threadX2Dspawn(i, a); }
 U32 tb_wasi__threadX2Dspawn(void* i, U32 a) { return wasi__threadX2Dspawn(i, a); }
 U32 tn_wasi__threadX2Dspawn(void* i, U32 a) { return wasi__threadX2Dspawn(i, a); }
+/* host fault: with SPAWN_FAIL_EVERY=k every k-th thread creation asked for by a thread-spawn call fails with EAGAIN (after a
+ * moment, so that other spawns complete in between); the driver's own threads are not affected (linked with --wrap=pthread_create) */
+static __thread int in_spawn, create_failed; static int fail_every; static int create_calls;
+int __real_pthread_create(pthread_t*, const pthread_attr_t*, void* (*)(void*), void*);
+int __wrap_pthread_create(pthread_t* t, const pthread_attr_t* a, void* (*fn)(void*), void* arg) {
+    if (in_spawn && fail_every > 0 && __atomic_add_fetch(&create_calls, 1, __ATOMIC_SEQ_CST) % fail_every == 0) { usleep(2000); create_failed = 1; return 11 /* EAGAIN */; }
+    return __real_pthread_create(t, a, fn, arg);
+}
 static U32 do_spawn(int mod, U32 arg) {
-    U32 r = mod == 1 ? ta_spawn(&A, arg) : mod == 2 ? tb_spawn(&B, arg) : tn_spawn(&N, arg);
-    int k;
-    pthread_mutex_lock(&lg); k = nspawns++; spawns[k].arg = arg; spawns[k].ret = r; spawns[k].mod = mod; pthread_mutex_unlock(&lg);
+    U32 r; int k, failed;
+    in_spawn = 1; create_failed = 0;
+    r = mod == 1 ? ta_spawn(&A, arg) : mod == 2 ? tb_spawn(&B, arg) : tn_spawn(&N, arg);
+    in_spawn = 0; failed = create_failed;
+    pthread_mutex_lock(&lg); k = nspawns++; spawns[k].arg = arg; spawns[k].ret = r; spawns[k].mod = mod; spawns[k].fail = failed; pthread_mutex_unlock(&lg);
     return r;
 }
 static pthread_barrier_t bar;
-static void* spawner(void* a) { long k = (long)a; pthread_barrier_wait(&bar); do_spawn(1 + (int)(k % 2), (U32)(2000 + k)); return NULL; }
+static void* spawner(void* a) { long k = (long)a; int j; pthread_barrier_wait(&bar); for (j = 0; j < (fail_every ? 4 : 1); j++) do_spawn(1 + (int)(k % 2), (U32)(2000 + 100 * j + k)); return NULL; }
 int main(int argc, char** argv) {
     int K = argc > 1 ? atoi(argv[1]) : 4, i, waited = 0, want = 0; pthread_t th[64];
     const char* order = argc > 2 ? argv[2] : "naabbnab";
     char* noargs[1] = {NULL};
+    if (getenv("SPAWN_FAIL_EVERY")) fail_every = atoi(getenv("SPAWN_FAIL_EVERY"));
     wasiInit(0, noargs, noargs);
     wasmTableAllocate(&hosttab[0], 4, 4); wasmTableAllocate(&hosttab[1], 4, 4); wasmTableAllocate(&hosttab[2], 4, 4);
     taInstantiate(&A, resolve0); tbInstantiate(&B, resolve1); tnInstantiate(&N, resolve2);
@@ -56,12 +67,12 @@ int main(int argc, char** argv) {
     pthread_barrier_init(&bar, NULL, (unsigned)K);
     for (i = 0; i < K; i++) pthread_create(&th[i], NULL, spawner, (void*)(long)i);
     for (i = 0; i < K; i++) pthread_join(th[i], NULL);
-    for (i = 0; i < nspawns; i++) if (spawns[i].mod != 3) want++;
+    for (i = 0; i < nspawns; i++) if (spawns[i].mod != 3 && !spawns[i].fail) want++;
     while (waited < 3000) { int n; pthread_mutex_lock(&lg); n = nstarts; pthread_mutex_unlock(&lg); if (n >= want) break; usleep(1000); waited++; }
     usleep(20000);
     pthread_mutex_lock(&lg);
     printf("{\"spawns\":[");
-    for (i = 0; i < nspawns; i++) printf("%s{\"arg\":%u,\"ret\":%d,\"mod\":%d}", i ? "," : "", spawns[i].arg, (int)spawns[i].ret, spawns[i].mod);
+    for (i = 0; i < nspawns; i++) printf("%s{\"arg\":%u,\"ret\":%d,\"mod\":%d,\"fail\":%d}", i ? "," : "", spawns[i].arg, (int)spawns[i].ret, spawns[i].mod, spawns[i].fail);
     printf("],\"starts\":[");
     for (i = 0; i < nstarts; i++) printf("%s{\"tid\":%u,\"arg\":%u,\"mod\":%d,\"shared\":%d,\"parent\":%d}", i ? "," : "", starts[i].tid, starts[i].arg, starts[i].mod, starts[i].shared, starts[i].parent);
     printf("],\"cell\":%u}\n", ta_cell(&A) + tb_cell(&B) + tn_cell(&N));
